@@ -192,10 +192,15 @@ func (r *Run) Replaying() bool { return r.replay != nil }
 
 // N picks a case count by tier. In thorough tier the count is per shard.
 func (r *Run) N(quick, thorough int) int {
+	n := thorough
 	if r.Quick() {
-		return quick
+		n = quick
 	}
-	return thorough
+	if r.Race {
+		// the race detector slows execution 5-10x: race shards run a third of the cases
+		n = max(n/3, 1)
+	}
+	return n
 }
 
 // Note adds a free-text line to the evidence.
